@@ -49,6 +49,9 @@ pub enum StoreFault {
     /// one character of one string field of an artifact replaced (exact position): the header
     /// fields a reader validates and echoes in its messages (names, versions, hashes)
     FieldChar { path: String, pointer: String, at: usize, ch: char },
+    /// one node of a genuine artifact wrapped into `depth` nested arrays: deep nesting in the
+    /// middle of an otherwise ordinary file (whatever precedes it has been scanned normally)
+    DeepSplice { path: String, pick: u64, depth: usize },
 }
 
 #[derive(Clone, Debug, serde::Serialize, serde::Deserialize)]
@@ -172,6 +175,22 @@ fn apply_store_fault(sb: &Sandbox, f: &StoreFault) -> bool {
             cs[i] = *ch;
             *doc.pointer_mut(pointer).unwrap() = Value::String(cs.into_iter().collect());
             sb.write(path, serde_json::to_string_pretty(&doc).unwrap().as_bytes());
+            true
+        }
+        StoreFault::DeepSplice { path, pick, depth } => {
+            let Some(b) = sb.read(path) else { return false };
+            let Ok(mut doc) = serde_json::from_slice::<Value>(&b) else { return false };
+            let ptrs = faults::all_pointers(&doc);
+            if ptrs.is_empty() {
+                return false;
+            }
+            let ptr = ptrs[Prng::new(*pick).usize(ptrs.len())].clone();
+            let Some(node) = doc.pointer_mut(&ptr) else { return false };
+            let inner = serde_json::to_string(node).unwrap();
+            *node = Value::String("@@SPLICE@@".to_string());
+            let text = serde_json::to_string_pretty(&doc).unwrap();
+            let wrapped = format!("{}{}{}", "[".repeat(*depth), inner, "]".repeat(*depth));
+            sb.write(path, text.replacen("\"@@SPLICE@@\"", &wrapped, 1).as_bytes());
             true
         }
         StoreFault::FlipAt { path, at, bit } => match sb.read(path) {
@@ -410,7 +429,13 @@ pub fn cases(opts: &Opts) -> Vec<Case> {
         if i % 5 == 3 {
             // an illegal *configuration* (import cycle, misnamed or missing package, orphan impl,
             // use without import, ...): the compiler must end with a diagnostic here as well
-            use crate::genp::variants::{ILLEGAL_KINDS, inject};
+            use crate::genp::variants::{ILLEGAL_KINDS, ODD_LAYOUTS, inject, odd_layout};
+            if (i / 5) % 3 == 2 {
+                let form = ((i / 15) % ODD_LAYOUTS as usize) as u8;
+                let (files, _) = odd_layout(&proj, form, &mut p);
+                out.push(Case { name: format!("{name}+odd-layout:{form}"), files, proj: None });
+                continue;
+            }
             let kind = ILLEGAL_KINDS[(i / 5) % ILLEGAL_KINDS.len()].clone();
             if let Some((_, bad, _)) = inject(&proj, &kind, &mut p) {
                 out.push(Case { name: format!("{name}+illegal:{kind:?}"), files: bad, proj: None });
@@ -773,6 +798,20 @@ fn check_case(sb: &Sandbox, opts: &Opts, idx: usize, case: &Case, per_op: usize,
                     }
                 }
             }
+            // deep nesting spliced into a genuine artifact the operation opens
+            if op.entry != "run" && (enumerate || (idx + oi) % 3 == 1) {
+                let arts: Vec<&String> = artifacts.iter().filter(|a| baseline.opened.contains(*a)).collect();
+                if !arts.is_empty() {
+                    let reps = if enumerate { 6 } else { 2 };
+                    for _ in 0..reps {
+                        let path = (*p.pick(&arts)).clone();
+                        let pick = p.next_u64();
+                        for depth in [150usize, 3_000, 12_000] {
+                            plans.push(FaultPlan { store: StoreFault::DeepSplice { path: path.clone(), pick, depth }, spec: clean_spec.clone() });
+                        }
+                    }
+                }
+            }
             let n_exact = if enumerate { 200 } else { 10 };
             for _ in 0..n_exact {
                 let path = (*p.pick(&pool)).clone();
@@ -808,6 +847,7 @@ fn check_case(sb: &Sandbox, opts: &Opts, idx: usize, case: &Case, per_op: usize,
                     StoreFault::FlipAt { .. } => "stored:bit-flipped-at-exact-offset",
                     StoreFault::Symlink { .. } => "stored:symlink-dangling-loop-or-dir",
                     StoreFault::FieldChar { .. } => "stored:header-field-character-replaced",
+                    StoreFault::DeepSplice { .. } => "stored:deep-nesting-spliced-into-artifact",
                     StoreFault::None => "",
                 };
                 *r.fired.entry(kind.to_string()).or_insert(0) += 1;
